@@ -63,6 +63,8 @@ int __real_fstat(int, struct stat *);
 int __real_fstat64(int, struct stat64 *);
 int __real_stat(const char *, struct stat *);
 int __real_stat64(const char *, struct stat64 *);
+int __real_lstat(const char *, struct stat *);
+int __real_lstat64(const char *, struct stat64 *);
 int __real_ioctl(int, unsigned long, ...);
 time_t __real_time(time_t *);
 int __real_gettimeofday(struct timeval *, void *);
@@ -331,8 +333,24 @@ static int dev_of_path(const char *p)
 static int is_src_path(const char *p)
 {
 	size_t n = strlen(P.src_prefix);
-	return P.active && n && p && !strncmp(p, P.src_prefix, n);
+	if (!P.active || !n || !p)
+		return 0;
+	if (p[0] == '/')
+		return !strncmp(p, P.src_prefix, n);
+	/* mke2fs -d walks the source tree with chdir() and relative names */
+	char cwd[PATH_MAX];
+	if (!getcwd(cwd, sizeof cwd))
+		return 0;
+	size_t c = strlen(cwd);
+	if (c >= n)
+		return !strncmp(cwd, P.src_prefix, n);
+	return 0;
 }
+
+/* The simulated host filesystem has no access-time or change-time clock of its own: atime and
+ * ctime always equal mtime.  (Real ctime/atime are set by the kernel from the real clock when the
+ * orchestrator creates the tree and when a tool reads it -- a source of nondeterminism.) */
+#define NORM_TIMES(st) do { (st)->st_atim = (st)->st_mtim; (st)->st_ctim = (st)->st_mtim; } while (0)
 
 static inline int fd_dev(int fd)
 {
@@ -879,6 +897,8 @@ int __wrap_fstat64(int fd, struct stat64 *st)
 	int r = __real_fstat64(fd, st);
 	if (!r)
 		blkify64(fd_dev(fd), st);
+	if (!r && P.active && fd_dev(fd) < 0)
+		NORM_TIMES(st);
 	return r;
 }
 int __wrap_fstat(int fd, struct stat *st)
@@ -889,6 +909,8 @@ int __wrap_fstat(int fd, struct stat *st)
 		st->st_mode = (st->st_mode & ~S_IFMT) | S_IFBLK;
 		st->st_rdev = makedev(7, 100 + d);
 	}
+	if (!r && P.active && d < 0)
+		NORM_TIMES(st);
 	return r;
 }
 int __wrap_stat64(const char *p, struct stat64 *st)
@@ -897,6 +919,26 @@ int __wrap_stat64(const char *p, struct stat64 *st)
 	int r = __real_stat64(p, st);
 	if (!r)
 		blkify64(dev_of_path(p), st);
+	if (!r && P.active && dev_of_path(p) < 0)
+		NORM_TIMES(st);
+	return r;
+}
+int __wrap_lstat64(const char *p, struct stat64 *st)
+{
+	sim_init();
+	int r = __real_lstat64(p, st);
+	if (!r)
+		blkify64(dev_of_path(p), st);
+	if (!r && P.active && dev_of_path(p) < 0)
+		NORM_TIMES(st);
+	return r;
+}
+int __wrap_lstat(const char *p, struct stat *st)
+{
+	sim_init();
+	int r = __real_lstat(p, st);
+	if (!r && P.active && dev_of_path(p) < 0)
+		NORM_TIMES(st);
 	return r;
 }
 int __wrap_stat(const char *p, struct stat *st)
@@ -908,6 +950,8 @@ int __wrap_stat(const char *p, struct stat *st)
 		st->st_mode = (st->st_mode & ~S_IFMT) | S_IFBLK;
 		st->st_rdev = makedev(7, 100 + d);
 	}
+	if (!r && P.active && d < 0)
+		NORM_TIMES(st);
 	return r;
 }
 
